@@ -405,7 +405,7 @@ def stub_find_job_ids_all(interp, b):
 
 class ProjLen(PContract):
     target = f"{PRJ}.Project.__len__"
-    properties = ("C02", "C03", "C07")
+    properties = ("C02", "C03", "C07", "C08")
     callees = {f"{PRJ}.Project._job_dirs": stub_job_dirs}
     faults = False
 
@@ -452,7 +452,7 @@ class EnumSeq(Sym):
 
 class ContainsJobId(PContract):
     target = f"{PRJ}.Project._contains_job_id"
-    properties = ("C02", "C03", "C07")
+    properties = ("C02", "C03", "C07", "C08")
     faults = False
 
     def setup(self, interp, case):
@@ -482,13 +482,13 @@ def stub_contains_job_id(interp, b):
 class OpenJobById(PContract):
     """Project.open_job(id=...) for an id the cache does not know: a full id, or an abbreviated one resolved against the job directories"""
     target = f"{PRJ}.Project.open_job"
-    properties = ("C02",)
+    properties = ("C02", "C05", "C08", "C09")
     inline = GETTERS + (f"{JOB}.Job.__init__", f"{JOB}.Job._initialize_lazy_properties")
     faults = False
     assumptions = ("abbreviated ids: only `full_id.startswith(prefix)` is observed (HASPFX), the prefix is shorter than a full id",)
 
     def cases(self):
-        return [{"by": "full-id-not-cached"}, {"by": "abbreviated-id"}]
+        return [{"by": "full-id-not-cached"}, {"by": "abbreviated-id"}, {"by": "full-id-cached"}]
 
     def make_ctx(self, case):
         ctx = super().make_ctx(case)
@@ -504,6 +504,10 @@ class OpenJobById(PContract):
         i = z3.Const("id_arg", Id)
         if case["by"] == "full-id-not-cached":
             ex.assume(z3.Not(proj.fields["_sp_cache"].dom[i]))
+            arg = SId(i)
+        elif case["by"] == "full-id-cached":
+            # the cache knows the id -- which says nothing about the workspace: entries survive remove() and id changes
+            ex.assume(z3.And(proj.fields["_sp_cache"].dom[i], proj.fields["_sp_cache"].valid()))
             arg = SId(i)
         else:
             arg = SIdPrefix()
@@ -526,6 +530,12 @@ class OpenJobById(PContract):
             if not ok:
                 return
             m = j.fields["_id"].e
+            dk = j.fields.get("_directory_known")
+            dk = dk.e if isinstance(dk, SBool) else z3.BoolVal(bool(dk))
+            ex.oblige(self.oname("ensures:the_handle_takes_its_directory_for_granted_only_if_the_job_directory_exists"), z3.Implies(dk, fs0.dirs[JD.mk(p, m)]))
+            if case["by"] == "full-id-cached":
+                ex.oblige(self.oname("ensures:a_cached_id_is_opened_with_the_cached_state_point"), m == pre["i"])
+                return
             if case["by"] == "full-id-not-cached":
                 ex.oblige(self.oname("ensures:a_full_id_is_opened_iff_its_job_directory_exists"), z3.And(m == pre["i"], fs0.dirs[JD.mk(p, m)]))
             else:
@@ -578,7 +588,7 @@ print("ok")
 
 class ProjContains(PContract):
     target = f"{PRJ}.Project.__contains__"
-    properties = ("C02", "C03", "C07")
+    properties = ("C02", "C03", "C07", "C08")
     inline = GETTERS + (f"{PRJ}.Project._contains_job_id",)
     faults = False
 
